@@ -20,7 +20,7 @@ PROPERTY ChTabKeepsComposition
 TRACE_CFG = """CONSTANTS
   Vars = {"x", "y", "z"}
   NAtoms = 7
-  Bases = {"CH4", "H2O", "Fe3O4", "D2O18", "hydrate", "zero", "half", "H"}
+  Bases = {"CH4", "H2O", "Fe3O4", "D2O18", "hydrate", "zero", "empty", "half", "H"}
   Mults = {"0", "0.5", "1", "2", "3", "1.5", "0.25"}
   MaxObjs = 99
   MaxDepth = 99
@@ -101,9 +101,12 @@ def run(ctx):
     if quick:
         hs = hs[:3000]
     deep = gen(ctx, "simulate depth 7 (3 variables, all bases)", ["x", "y", "z"],
-               ["CH4", "H2O", "Fe3O4", "D2O18", "hydrate", "zero", "half", "H"], ["0", "0.5", "1", "2", "3", "1.5", "0.25"], 7,
+               ["CH4", "H2O", "Fe3O4", "D2O18", "hydrate", "zero", "empty", "half", "H"], ["0", "0.5", "1", "2", "3", "1.5", "0.25"], 7,
                simulate=(5 if quick else 100), tabs="{0, 1}")
     # two tables, change_table: all maximal histories of depth 3 over one base
+    emp = gen(ctx, "exhaustive depth 3 (2 variables, empty formulas accumulated onto)", ["x", "y"], ["empty", "H"], ["3"], 3)
+    rng.shuffle(emp)
+    hs += emp[:(1500 if quick else len(emp))]
     two = gen(ctx, "exhaustive depth 3 (2 variables, 2 tables, change_table)", ["x", "y"], ["H2O"], ["3"], 3, tabs="{0, 1}")
     rng.shuffle(two)
     hs += two[:(1500 if quick else len(two))]
